@@ -374,7 +374,21 @@ def value_balance(chk, w):
         chk.fail("SUM", "value_balance/array", "value_balance no longer sums an array of balances",
                  f.span.loc())
         return
-    txts = [defuse.show(du.origin(o)) for o in arr.rv.ops]
+    def through_joins(o, depth=0):
+        """text of an origin plus, for every multi-definition local in it (a `match` / `if` join), the origins
+        of all its definitions"""
+        txt = defuse.show(o)
+        if depth > 4:
+            return txt
+        for n_ in {int(x) for x in re.findall(r"\b_(\d+)\b", txt)}:
+            for kind, _bi, x in du.defs.get(n_, []):
+                if kind == "stmt" and x.rv.kind == "use":
+                    txt += " | " + through_joins(du.origin(x.rv.ops[0]), depth + 1)
+                elif kind == "call":
+                    nm = x.callee.target_p() if x.callee.indirect is None else "?"
+                    txt += " | " + through_joins(("call", nm, [du.origin(a) for a in x.args]), depth + 1)
+        return txt
+    txts = [through_joins(du.origin(o)) for o in arr.rv.ops]
     for fld in ("transparent_builder", "sapling_builder", "orchard_builder", "ironwood_builder"):
         hit = [x for x in txts if "." + fld in x]
         if hit:
